@@ -70,6 +70,18 @@ def run(ctx, rep):
                "" if (okd and okv) else ("%d call(s) of %s; dominating every build: %s; value from %s: %s - an object built after another class was first instantiated gets that "
                                          "class's name and its method calls fail" % (len(sets), mir.short(setter), okd, mir.short(src or "-"), okv)),
                builds[0].span if builds else mo.span, fn=mo.path, key="C08.class-of-object|%s" % what.replace(" ", "-"))
+    # a field takes every value the type checker let through (a `T?` field: a T, another T, nil, in any order): the store handler has no
+    # opinion on the kind of the value - it fails only for want of operands or of a view to store through
+    pm = need(F, "bytecode::instruction::implementations::ptr_mut")
+    hs = F.fn("bytecode::variables::primitive::HeapPrimitive::set")
+    KIND = ("bytecode::variables::primitive::Primitive::ty", "bytecode::variables::primitive::Primitive::is_numeric", "core::mem::discriminant",
+            "core::intrinsics::discriminant_value", "bytecode::variables::primitive::Primitive::equals", "bytecode::variables::primitive::Primitive::runtime_addr_check")
+    judged = [pm] + ([hs] if hs is not None else [])
+    kind_calls = [(g, c) for g in judged for c in g.calls() if c.matches(KIND)]
+    rep.ob("C08.field-write", "`o.f = v` stores whatever value it is handed: the handler does not compare kinds", "violated" if kind_calls else "ok",
+           ("%s asks for the kind of a value (%s): a `T?` field that holds a value can no longer be cleared with nil (`mismatched types`), which the type checker accepts"
+            % (mir.short(kind_calls[0][0].path), mir.short(kind_calls[0][1].callee()))) if kind_calls else "", kind_calls[0][1].span if kind_calls else pm.span, fn=pm.path,
+           key="C08.field-write|no-kind-test")
     # build not in a cache branch: each execution of make_object calls build (no guard that skips it)
     pushes = mo.calls_to("bytecode::context::Ctx::push")
     for p in pushes:
